@@ -473,6 +473,7 @@ def run(ctx):
     _r09_8(ctx, p)
     _r09_9(ctx, p)
     _r09_10(ctx, p)
+    _r09_11(ctx, p)
 
 
 ATTR_SOURCES = ("system_attrs", "user_attrs", "get_study_system_attrs", "get_study_user_attrs", "get_trial_system_attrs", "get_trial_user_attrs")
@@ -611,4 +612,26 @@ def _r09_10(ctx, p):
                                   f"objective with two or more parameters; order-dependent samplers draw a different sequence",
                           how="iteration over an ordered (repeated) field, or an explicit order carried in the message", where=where(f, it))
     ctx.floor("R09.10", "decoded_ordered_dicts", n, 2)
+
+
+def _r09_11(ctx, p):
+    ctx.rule("R09.11", "equal objective values: the scan-based best trial (journal, and gRPC in front of it) is the FIRST extremal trial in number order for both "
+             "directions - max()/min() over the number-ordered list - as the in-memory cache (strict comparison keeps the earlier trial) gives; a sort-and-index "
+             "selection returns the last of equal values for one direction and samplers that start from study.best_trial then differ between backends")
+    f = p.func("optuna.storages._base.BaseStorage.get_best_trial")
+    rets = [n.value for n in own_nodes(f.node) if isinstance(n, ast.Return) and n.value is not None]
+    ctx.require(rets, "R09.11: BaseStorage.get_best_trial returns nothing")
+    picks = []
+    for n in own_nodes(f.node):
+        if isinstance(n, ast.Call) and dotted(n.func) in ("max", "min", "sorted", "np.argmax", "np.argmin", "np.argsort") and n.args:
+            picks.append(n)
+        if isinstance(n, ast.Call) and isinstance(n.func, ast.Attribute) and n.func.attr == "sort":
+            picks.append(n)
+    kinds = sorted({(dotted(c.func) or c.func.attr) for c in picks})
+    ok = kinds == ["max", "min"] and all(isinstance(c.args[0], ast.Name) for c in picks)
+    ctx.check(ok, "R09.11", f.short, "first-extremal-trial-in-number-order",
+              message=f"BaseStorage.get_best_trial selects with {kinds}: only max()/min() over the number-ordered trial list return the first of several equally good trials "
+                      f"for both directions (sorted(...)[-1] returns the last one for MAXIMIZE) - with duplicate best values the journal backend and the in-memory backend "
+                      f"then name different best trials, and everything seeded from study.best_trial diverges",
+                      how="max(all_trials, key=value) / min(all_trials, key=value)")
 
